@@ -106,3 +106,22 @@ SPECS['C20'] = dict(
     quick=dict(workers=16, cases=2500, size=100, timeout=900),
     thorough=dict(workers=16, cases=30000, size=100, timeout=3600),
 )
+
+SPECS['C01'] = dict(
+    kind='native', drivers=['p_c01.cpp'], shims=['sut_strm'], with_lib=True,
+    level='exploration',
+    technique='differential testing of generated RRULEs against an independent RFC 5545 reference expander (rapidcheck, shrinking)',
+    level_text=('Generated (synchronised DTSTART, RRULE) pairs over all seven FREQs and all RFC-legal BY-part combinations are unrolled through the pull '
+                'parser and the task stream one occurrence at a time and compared element-wise with an independent brute-force RFC 5545 expander over a '
+                '200-occurrence window (>=3 internal refills). Sampled search with shrinking; finds disagreement classes, cannot prove absence.'),
+    level_note='trusts oracle/rrule_ref.hpp (filter formulation, validated on the RFC-only rules the repo tests pin) and oracle/civil.hpp',
+    rule=('case = (DTSTART synchronised with the rule, RRULE text, peeks on/off); FREQ uniform over SECONDLY..YEARLY; INTERVAL 1 / 2..12 / large; COUNT in '
+          '{1..5, 60..70, 120..135, 190..200} or UNTIL on / just before / between instances; BY parts per the RFC expand/limit table incl. negative and extreme '
+          'values, ordinals, BYWEEKNO+BYDAY, BYSETPOS; DTSTART phases biased to 29 Feb, 31st, year ends. non-trivial = reference set has >=2 elements and the '
+          'rule has a BY part or INTERVAL>1 or crosses a refill (>64); distinct = hash of (DTSTART, rule text)'),
+    assumptions=['DTSTART is synchronised with the rule (RFC 5545 leaves the set undefined otherwise)',
+                 'only RFC-legal part/FREQ combinations; WKST=MO; years 1902..2098; DTSTART in UTC (TZID is C07)',
+                 'rules whose reference needs >4e6 empty periods between instances are discarded (C09 covers termination)'],
+    quick=dict(workers=16, cases=2500, size=100, timeout=1200),
+    thorough=dict(workers=16, cases=15000, size=100, timeout=7200),
+)
